@@ -3210,7 +3210,14 @@ define_array_type(InterrogateType &itype, CPPArrayType *cpptype) {
     // This indicates an unsized array.
     itype._array_size = -1;
   } else {
-    itype._array_size = cpptype->_bounds->evaluate().as_integer();
+    CPPExpression::Result result = cpptype->_bounds->evaluate();
+    if (result._type == CPPExpression::RT_error) {
+      // The bound cannot be evaluated (e.g. it divides by zero or depends on
+      // something unknown).  Record it as an unsized array.
+      itype._array_size = -1;
+    } else {
+      itype._array_size = result.as_integer();
+    }
   }
 }
 
